@@ -85,3 +85,27 @@ func (b *abufBad) clearSide(side uint) { b.ctx[side] = b.ctx[side][:0] }
 
 // the text after the run survives
 func (b *abufBad) Clear() { b.clearSide(0) }
+
+// controls of R-STATE: a local of the same struct type on the stack (a by-value parameter) must not hide a read of the
+// persistent object (P-FX has one abstract object per struct type)
+
+type wcfg struct {
+	dir  int
+	trim bool
+}
+
+type Wrapper2 struct {
+	cfg wcfg
+}
+
+func (w *Wrapper2) RunGood(c wcfg) int {
+	w.cfg = c
+	return w.cfg.dir
+}
+
+// reads the configuration of the previous call
+func (w *Wrapper2) RunBad(c wcfg) int {
+	d := w.cfg.dir
+	w.cfg = c
+	return d + c.dir
+}
